@@ -13,8 +13,8 @@ pub const CONSTRUCTS: [&str; 39] = [
     "listcomma", "listmap", "mapcomma", "ifthen", "callsum", "subright", "string", "negidx", "listidx", "mapidx", "indexnum",
     "skipeq", "skipand", "skipor", "skipif", "skiplist", "skipmap", "skipcallarg", "escapes", "adderr", "negerr", "listerr", "metalist", "metamap", "metaneg",
 ];
-pub const OPS: [&str; 12] = [
-    "parse", "parse-rule", "display", "debug", "clone", "compare", "drop", "evaluate", "evaluate-in-ruleset", "compare-rules", "debug-rule", "drop-ruleset",
+pub const OPS: [&str; 13] = [
+    "parse", "parse-rule", "display", "debug", "clone", "compare", "drop", "evaluate", "evaluate-in-ruleset", "compare-rules", "debug-rule", "drop-ruleset", "parse-rule-bare-comment",
 ];
 pub const STACKS: [(&str, usize); 2] = [("main8M", 8 << 20), ("worker2M", 2 << 20)];
 
@@ -110,7 +110,7 @@ pub fn run(ctx: &Ctx) {
          nested maps (also with trailing comma), if nested in condition / then / else, parentheses, index chains, nested contains, \
          right-nested subtraction, calls of sums, one long string literal of escapes, deep terms followed by a numeric index, numeric \
          index chains, deep operands in never-evaluated positions of ==, and, or, if, deep terms followed by a syntax error, and deep values of a rule's metadata item) x depth on a geometric ladder 16, 24, 32, ... (x1.5 / x1.33 steps) up to 2^17 (quick) / 2^18 \
-         (thorough) x operation in {parse, parse as rule, display, debug, clone, compare, drop, evaluate, evaluate as a rule of a ruleset built through with_rule / with_rules, compare two rules of different names holding the tree, debug-print a rule holding the tree, drop a ruleset of 40 rules one of which holds the tree} x stack in {8 MiB, 2 MiB}; \
+         (thorough) x operation in {parse, parse as rule, display, debug, clone, compare, drop, evaluate, evaluate as a rule of a ruleset built through with_rule / with_rules, compare two rules of different names holding the tree, debug-print a rule holding the tree, drop a ruleset of 40 rules one of which holds the tree (rulesets are built with a symbol registered), parse as a rule whose first comment line is empty} x stack in {8 MiB, 2 MiB}; \
          each case is one child process whose operation runs on a thread of exactly that stack size; every ladder is climbed twice, by a release build of the child and (to 2^14 / 2^16) by a dev-profile build (no optimisation: larger frames, no tail calls; signatures end in `:dev`); trees are obtained by parsing \
          the text and leaked after the operation so that only the named operation recurses. Each (construct, operation, stack) \
          ladder is climbed until the first crash. Oracle: the child exits normally; death by signal is the property's failure; \
